@@ -153,6 +153,14 @@ def run(ctx, replay=None):
     keys = keys[:150]
     behs_small, res1 = cachereplay.model_behaviours(ctx.work, cap=2, nkeys=3, depth=6)
     ctx.add_tlc(res1, 'GVCache exhaustive (cap 2, 3 keys, depth 6)')
+    # the model's own guarantee - every answer is the function's value, whatever the history of hits, misses and
+    # evictions - for every capacity, key range and depth (TLAPS); depends on the specification only
+    from harness.tlc import run_tlapm
+    proved, tail = run_tlapm(['GVCache.tla', 'GVCacheProofs.tla'], 'GVCacheProofs.tla')
+    if proved is None:
+        raise RuntimeError('TLAPS could not discharge GVCacheProofs:\n' + tail)
+    ctx.cov['obligations'] = ctx.cov['discharged'] = proved
+    ctx.log(f'TLAPS: InvAnswers is an invariant of GVCache for every bound ({proved} obligations)')
     depth = 160 if ctx.quick else 2000
     behs_big, res2 = cachereplay.model_behaviours(ctx.work, cap=128, nkeys=150, depth=depth, num=2 if ctx.quick else 6, seed=ctx.seed + 1)
     ctx.add_tlc(res2, f'GVCache simulation (cap 128, 150 keys, depth {depth})')
